@@ -2,177 +2,8 @@ package main
 
 import (
 	"go/ast"
-	"go/token"
 	"go/types"
-	"sort"
-	"strings"
 )
-
-// c18r6: typestate over finish(): the pair (header compression bit, body replaced by compressor output) is
-// tracked as a set of possible pairs along every path; a success return with the bit (possibly) set and the body
-// not replaced sends a frame that announces compression and carries a plain body.
-type finState struct{ pairs map[[2]int]bool } // [flag 0 unknown / 1 set / 2 clear, compressed 0/1]
-
-func c18r6(p *Program, r *Report) {
-	fi := r.NeedFunc("(*framer).finish")
-	if fi == nil {
-		return
-	}
-	g := p.GraphOf(fi)
-	info := g.Info
-	isHeaderFlags := func(e ast.Expr) bool { return strings.ReplaceAll(exprStr(ast.Unparen(e)), " ", "") == "f.buf[1]" }
-	// bitAtom: e tests the compression bit of the header flags byte
-	bitAtom := func(e ast.Expr) (setWhenTrue, ok bool) {
-		b, isB := ast.Unparen(e).(*ast.BinaryExpr)
-		if !isB || b.Op != token.EQL && b.Op != token.NEQ {
-			return false, false
-		}
-		and, isA := ast.Unparen(b.X).(*ast.BinaryExpr)
-		if !isA || and.Op != token.AND || !isHeaderFlags(and.X) {
-			return false, false
-		}
-		mask, okM := constInt(info, and.Y)
-		rhs, okR := constInt(info, b.Y)
-		if !okM || !okR || mask != 0x01 {
-			return false, false
-		}
-		switch {
-		case b.Op == token.EQL && rhs == mask, b.Op == token.NEQ && rhs == 0:
-			return true, true
-		case b.Op == token.EQL && rhs == 0, b.Op == token.NEQ && rhs == mask:
-			return false, true
-		}
-		return false, false
-	}
-	union := func(a, b finState) finState {
-		n := finState{pairs: map[[2]int]bool{}}
-		for k := range a.pairs {
-			n.pairs[k] = true
-		}
-		for k := range b.pairs {
-			n.pairs[k] = true
-		}
-		return n
-	}
-	var cond func(s finState, e ast.Expr, val bool) finState
-	cond = func(s finState, e ast.Expr, val bool) finState {
-		e = ast.Unparen(e)
-		if u, ok := e.(*ast.UnaryExpr); ok && u.Op == token.NOT {
-			return cond(s, u.X, !val)
-		}
-		if b, ok := e.(*ast.BinaryExpr); ok {
-			switch b.Op {
-			case token.LAND:
-				if val {
-					return cond(cond(s, b.X, true), b.Y, true)
-				}
-				return union(cond(s, b.X, false), cond(cond(s, b.X, true), b.Y, false))
-			case token.LOR:
-				if !val {
-					return cond(cond(s, b.X, false), b.Y, false)
-				}
-				return union(cond(s, b.X, true), cond(cond(s, b.X, false), b.Y, true))
-			}
-		}
-		if setWhenTrue, ok := bitAtom(e); ok {
-			want := 2
-			if setWhenTrue == val {
-				want = 1
-			}
-			n := finState{pairs: map[[2]int]bool{}}
-			for k := range s.pairs {
-				if k[0] == 0 || k[0] == want {
-					n.pairs[[2]int{want, k[1]}] = true
-				}
-			}
-			return n
-		}
-		return s
-	}
-	sol := Solve(g, Lattice[finState]{
-		Init: finState{pairs: map[[2]int]bool{{0, 0}: true}},
-		Join: union,
-		Eq: func(a, b finState) bool {
-			if len(a.pairs) != len(b.pairs) {
-				return false
-			}
-			for k := range a.pairs {
-				if !b.pairs[k] {
-					return false
-				}
-			}
-			return true
-		},
-		Step: func(s finState, st Step) finState {
-			switch st.Kind {
-			case StCond:
-				return cond(s, st.Node.(ast.Expr), st.Val)
-			case StNode:
-				as, ok := st.Node.(*ast.AssignStmt)
-				if !ok {
-					return s
-				}
-				for i, l := range as.Lhs {
-					ls := strings.ReplaceAll(exprStr(l), " ", "")
-					switch {
-					case ls == "f.buf[1]":
-						// the header flags byte is rewritten: clearing the bit makes the header say "plain"
-						n := finState{pairs: map[[2]int]bool{}}
-						clears := as.Tok == token.AND_NOT_ASSIGN
-						for k := range s.pairs {
-							if clears {
-								n.pairs[[2]int{2, k[1]}] = true
-							} else {
-								n.pairs[[2]int{0, k[1]}] = true
-							}
-						}
-						s = n
-					case ls == "f.buf" && i < len(as.Rhs):
-						// body replaced by the compressor's output: append(f.buf[:f.headSize], <encoded>...)
-						if c, ok := ast.Unparen(as.Rhs[i]).(*ast.CallExpr); ok && exprStr(c.Fun) == "append" && len(c.Args) == 2 && c.Ellipsis.IsValid() {
-							if id, ok := ast.Unparen(c.Args[1]).(*ast.Ident); ok {
-								if d := localDefMulti(info, fi, id); d != nil {
-									if dc, ok := ast.Unparen(d).(*ast.CallExpr); ok && calleeName(info, dc) == "Compressor.Encode" {
-										n := finState{pairs: map[[2]int]bool{}}
-										for k := range s.pairs {
-											n.pairs[[2]int{k[0], 1}] = true
-										}
-										s = n
-									}
-								}
-							}
-						}
-					}
-				}
-			}
-			return s
-		},
-	})
-	n := 0
-	for _, e := range g.Exits() {
-		rs, ok := e.Node.(*ast.ReturnStmt)
-		if !ok || len(rs.Results) != 1 || !isNil(info, rs.Results[0]) {
-			continue
-		}
-		n++
-		st, _ := sol.Before(rs)
-		var bad []string
-		for k := range st.pairs {
-			if k[0] != 2 && k[1] == 0 {
-				bad = append(bad, "header bit "+[]string{"possibly set", "set", "clear"}[k[0]]+" with the body not compressed")
-			}
-			if k[0] == 2 && k[1] == 1 {
-				bad = append(bad, "header bit clear with the body compressed")
-			}
-		}
-		sort.Strings(bad)
-		r.Check(len(bad) == 0, rs, "(*framer).finish: header compression bit and body form agree at the success return", "compressed exactly when f.buf[1] has the bit",
-			"a path reaches the success return with "+strings.Join(bad, " / ")+": the frame announces compression but carries a plain body (or the reverse), which the peer cannot decode")
-	}
-	if n == 0 {
-		r.Unresolved("finish has no success return")
-	}
-}
 
 // localDefMulti is localDef for `x, err := call()` definitions (first result).
 func localDefMulti(info *types.Info, fi *FuncInfo, id *ast.Ident) ast.Expr {
